@@ -191,6 +191,11 @@ def check(prog, rep, tier):
 
 # ---------------------------------------------------------------------- helpers
 
+    # the OPEN is judged against the configuration, not against what an earlier session left behind
+    from .c02 import session_hold_time_rule
+    from .common import get_table, env_facts
+    session_hold_time_rule(get_table(prog, dot_dead=env_facts(prog)['dot_dead']), rep, 'R01.c')
+
     # ---------------------------------------------------------------- R01.f
     from .c03 import timer_shape
     timer_shape(prog, rep, rule='R01.f')
